@@ -225,7 +225,20 @@ func (s *LogStore) triggerVerify(r VerificationReport) {
 
 // DeleteRange deletes a range of log entries. The range is inclusive.
 func (s *LogStore) DeleteRange(min uint64, max uint64) error {
-	return s.s.DeleteRange(min, max)
+	if err := s.s.DeleteRange(min, max); err != nil {
+		return err
+	}
+	// If the truncation removed entries that are already part of the running
+	// checksum (e.g. a follower truncating a conflicting suffix before it
+	// appends the new leader's entries) the checksum no longer describes what
+	// is in the store. Reset it so that the next append starts a new range and
+	// the next checkpoint is verified by reading back rather than reporting a
+	// bogus in-flight corruption.
+	if max >= atomic.LoadUint64(&s.sumStartIdx) {
+		atomic.StoreUint64(&s.checksum, 0)
+		atomic.StoreUint64(&s.sumStartIdx, 0)
+	}
+	return nil
 }
 
 // Close cleans up the background verification routine and calls Close on the
